@@ -177,7 +177,9 @@ def classify(diags: List[dict], lines_meta: list, build_name: str):
             spans = spans + c.get("spans", [])
         if "rlimit" in msg.lower() or "resource limit" in msg.lower():
             rl.append(msg); continue
-        if not any(v in msg for v in VERIF_MSGS):
+        # a rustc diagnostic with an error code (error[E0277]: the trait bound .. is not satisfied) is a compile error of the
+        # generated file, never a verification result, whatever words its message contains
+        if d.get("code") or not any(v in msg for v in VERIF_MSGS):
             hard.append(d.get("rendered") or msg); continue
         fid = None; label = None; line = None
         # the call site (primary span) decides which function failed; a callee's `requires` line is only the reason
